@@ -15,6 +15,8 @@ CHECKS = {
  "C15": ("full product of presentation flags x all small logs; record equality, per-day interleaving law, colour law, shortening law, --desc law", "§4 C15"),
 }
 CHECKS.update({
+ "C08": ("every token string up to 5 (6) tokens through the parser, every file of up to 2 (3) lines over 24 line shapes in every role through 50 command/flag shapes, cycles x depth limits; panics recovered and attributed, process deaths attributed through a journal, 120 s horizon per case", "§4 C08"),
+ "C18": ("every interleaving of the real producer (Parser.ParseStream / ParseFile, channel sends hooked by the overlay) and the documented consumers on a cooperative scheduler over modelled channels, with select-choice enumeration and deadlock detection; model validated against real channels on every run", "§4 C18"),
  "C04": ("every abstract file within the bound rendered under every layout departing from the README layout in at most 2 (3) places, every name/number of the alphabets at every position; the real parser's exact callback sequence compared with the abstract file (numbers rounded through big.Rat)", "§4 C04"),
  "C09": ("well-formed skeletons with k<=2 malformed lines planted at every position, in every role, through every file-reading command and lint; exact message, line number and order asserted", "§4 C09"),
  "C10": ("every byte offset at which the reader starts failing x delivery style x chunking, on the parser and on 14 commands through the CmdUtils seam; directories and over-long lines on real files", "§4 C10"),
@@ -24,6 +26,8 @@ CHECKS.update({
  "C17": ("every byte offset at which the output sink starts failing (exhaustive for reports <= 700 bytes, stated sample above) x 22 command shapes x 3 inputs through the CmdUtils seam; real binary on /dev/full and a closed pipe", "§4 C17"),
 })
 NOTES = {
+ "C08": "trusted: the alphabets; termination decided by a 120 s horizon (10^5 x normal cost); a worker death is attributed to the journaled case and reported as a violation",
+ "C18": "trusted: the channel model in harness/sched.go (rendezvous, buffering, closed channels, select) - validated on every run against free runs on real channels; the consumer loops are copies of parser/example_test.go and TestParseWg expressed through the scheduler's Select",
  "C04": "trusted: generator/renderer in harness/gen.go; the well-formed grammar excludes names that begin or end with punctuation the tokenizer trims; -0 == 0",
  "C09": "trusted: generator knows physical line numbers; lint's exit status is not asserted; expected messages are built with the repository's own error constructors (format changes are not flagged, wrong line/number is)",
  "C10": "trusted: faultReader models io.Reader failure (error alone or with the last bytes, short reads); weak form of the property (success => complete); stats is covered only on real files (it opens files itself)",
